@@ -61,8 +61,12 @@ class DiskImageContentExtractor(DiskImageWorker):
                 )
                 if "/" in extractedFileName or "\0" in extractedFileName:
                     raise ValueError(f"invalid.file.name:{extractedFileName}")
+                targetPath = os.path.join(sidePath, extractedFileName)
+                if os.path.abspath(targetPath) == os.path.abspath(args.archive):
+                    # a file named like the archive, extracted onto it
+                    raise ValueError(f"would.overwrite.the.archive:{targetPath}")
                 data = controller.readFile(entry)
-                with open(os.path.join(sidePath, extractedFileName), "wb") as outf:
+                with open(targetPath, "wb") as outf:
                     outf.write(data)
                 listener.onEndOfFile(file)
             listener.onEndOfSide(controller.computeUsage())
